@@ -2,5 +2,5 @@ from symx import chrun
 
 
 def run(rep, tier):
-    res = chrun.run_module(rep, 'ch.C18_ch', 30 if tier == 'quick' else 120)
+    res = chrun.run_module(rep, 'ch.C18_ch', 60 if tier == 'quick' else 180)
     rep.extra['crosshair'] = [{k: r_[k] for k in ('name', 'verdict', 'seconds')} for r_ in res]
